@@ -13,6 +13,9 @@ const NBINS: usize = 64;
 
 fn lambdas(thorough: bool) -> Vec<(String, f64)> {
     let mut v: Vec<(String, f64)> = vec![
+        ("1e-300".into(), 1e-300),
+        ("1e-17".into(), 1e-17),
+        ("1e-12".into(), 1e-12),
         ("1e-9".into(), 1e-9),
         ("1e-6".into(), 1e-6),
         ("1e-3".into(), 1e-3),
@@ -25,7 +28,7 @@ fn lambdas(thorough: bool) -> Vec<(String, f64)> {
     for m in ms {
         v.push((format!("ln({}/{})", m, m - 1), ((m as f64) / ((m - 1) as f64)).ln()));
     }
-    for l in [0.1, 0.25, 0.5, 0.75, 1.0, 1.5, 2.0, 3.0, 5.0, 7.0, 10.0, 15.0, 20.0, 30.0, 50.0] {
+    for l in [0.05, 0.1, 0.25, 0.5, 0.75, 0.9, 1.0, 1.25, 1.5, 2.0, 2.5, 3.0, 4.0, 5.0, 6.0, 7.0, 8.0, 8.1, 8.5, 9.0, 10.0, 12.0, 15.0, 18.0, 20.0, 25.0, 30.0, 40.0, 50.0, 75.0, 100.0, 300.0, 700.0, 709.0, 710.0, 720.0, 1000.0, 1e4, 1e6, 1e9] {
         v.push((format!("{}", l), l));
     }
     v
@@ -35,8 +38,10 @@ fn target_cdf(lambda: f64, t: f64) -> f64 {
     (-lambda * t).exp_m1() / (-lambda).exp_m1()
 }
 
-fn bin_of(x: f64) -> usize {
-    ((x * NBINS as f64) as usize).min(NBINS - 1)
+/// bins are the 64 quantile intervals of the target law (so that a rate of 1000, whose law lives on x ~ 1e-3, is resolved as
+/// well as a rate of 1e-9): x falls in bin floor(64 F(x))
+fn bin_of(lambda: f64, x: f64) -> usize {
+    ((target_cdf(lambda, x) * NBINS as f64) as usize).min(NBINS - 1)
 }
 
 struct LambdaResult {
@@ -51,6 +56,7 @@ struct LambdaResult {
     out_of_range: Option<String>,
     engine: Option<String>,
     distinct_outputs_stage1: u64,
+    strata: u32,
 }
 
 fn run_lambda(name: &str, lambda: f64, n1_log2: u32, n: usize) -> LambdaResult {
@@ -67,6 +73,7 @@ fn run_lambda(name: &str, lambda: f64, n1_log2: u32, n: usize) -> LambdaResult {
         out_of_range: None,
         engine: None,
         distinct_outputs_stage1: 0,
+        strata: 1,
     };
     // ---- stage 1: first try, u1 on a midpoint grid of 2^n1_log2 points
     let n1: u64 = 1u64 << n1_log2;
@@ -91,7 +98,7 @@ fn run_lambda(name: &str, lambda: f64, n1_log2: u32, n: usize) -> LambdaResult {
                 if s.overrun > 0 {
                     loops += 1;
                 } else {
-                    hist[bin_of(x)] += 1;
+                    hist[bin_of(lambda, x)] += 1;
                     if x != last {
                         distinct += 1;
                         last = x;
@@ -115,22 +122,50 @@ fn run_lambda(name: &str, lambda: f64, n1_log2: u32, n: usize) -> LambdaResult {
     }
     res.executions += n1;
     let p_loop = loops1 as f64 / n1 as f64;
-    // ---- stage 2: rejection loop body, (u2,u3) on an n x n midpoint grid, reached through the largest first word
+    // ---- stage 2: rejection loop body behind the largest first word.  u2 runs over geometric strata with nx midpoints each
+    // (the law of a large rate lives on x ~ 1/lambda: a uniform grid would put a handful of points there), u3 over n
+    // midpoints of [0,1); a stratum weighs its width.
     let wmax = word_for_k((1u64 << 52) - 1);
     let nlog = (n as f64).log2() as u32;
     assert_eq!(1usize << nlog, n);
-    let sh2 = 52 - nlog;
-    let rows: Vec<(Vec<u64>, u64, u64, Option<String>, Option<String>)> = (0..n as u64)
+    // strata as (lo, width) in units of 2^-52: one stratum [0,1) for lambda <= 1, else 2L strata, geometric towards 0 and -
+    // because the loop reflects points (x,y) with y > 1-x to (1-x,1-y) - towards 1
+    let levels: u32 = if lambda <= 1. { 0 } else { ((lambda.log2().ceil() as u32) + 3).min(38) };
+    let mut strata: Vec<(u64, u64)> = Vec::new();
+    if levels == 0 {
+        strata.push((0, 1u64 << 52));
+    } else {
+        let one = 1u64 << 52;
+        let w0 = one >> levels; // [0, 2^-L)
+        strata.push((0, w0));
+        strata.push((one - w0, w0));
+        let mut w = w0;
+        while w < one / 2 {
+            strata.push((w, w)); // [w, 2w)
+            strata.push((one - 2 * w, w)); // [1-2w, 1-w)
+            w *= 2;
+        }
+        debug_assert_eq!(strata.iter().map(|x| x.1).sum::<u64>(), one);
+    }
+    let nstrata = strata.len() as u32;
+    let nx: u64 = if nstrata == 1 { n as u64 } else { (n as u64) / 4 };
+    let sh3 = 52 - nlog;
+    // (stratum, i2) pairs
+    let cells: Vec<(u32, u64)> = (0..nstrata).flat_map(|st| (0..nx).map(move |i| (st, i))).collect();
+    let strata_ref = &strata;
+    let rows: Vec<(u32, Vec<u64>, u64, u64, Option<String>, Option<String>)> = cells
         .into_par_iter()
-        .map(|i2| {
+        .map(|(st, i2)| {
             let mut hist = vec![0u64; NBINS];
             let mut acc = 0u64;
             let mut execs = 0u64;
             let mut bad = None;
             let mut engine = None;
-            let k2 = (i2 << sh2) | (1u64 << (sh2 - 1));
+            let (lo, width) = strata_ref[st as usize];
+            let step = width / nx;
+            let k2 = lo + i2 * step + step / 2;
             for i3 in 0..n as u64 {
-                let k3 = (i3 << sh2) | (1u64 << (sh2 - 1));
+                let k3 = (i3 << sh3) | (1u64 << (sh3 - 1));
                 let words = [wmax, word_for_k(k2), word_for_k(k3)];
                 let mut s = Script::new(&words);
                 let x = sampler.sample(&mut s);
@@ -139,7 +174,11 @@ fn run_lambda(name: &str, lambda: f64, n1_log2: u32, n: usize) -> LambdaResult {
                     bad = Some(format!("loop generator values ({},{})*2^-52 -> sample {}", k2, k3, x));
                 }
                 if s.consumed() < 2 {
-                    engine = Some(format!("lambda {}: largest first word did not enter the rejection loop", lambda));
+                    // the largest first word was answered at once: there is no loop to explore behind it.  Whether that is
+                    // legitimate is decided by the range test above and by stage 1 (which then must not have looped either)
+                    if loops1 > 0 {
+                        engine = Some(format!("lambda {}: grid words enter a loop but the largest first word does not; the 3-state chain does not describe this sampler", lambda));
+                    }
                     break;
                 }
                 if s.overrun > 0 {
@@ -147,23 +186,25 @@ fn run_lambda(name: &str, lambda: f64, n1_log2: u32, n: usize) -> LambdaResult {
                 }
                 if s.consumed() == 2 {
                     // accepted on u2 alone: the whole row has this outcome
-                    hist[bin_of(x)] += n as u64;
+                    hist[bin_of(lambda, x)] += n as u64;
                     acc += n as u64;
                     break;
                 }
-                hist[bin_of(x)] += 1;
+                hist[bin_of(lambda, x)] += 1;
                 acc += 1;
             }
-            (hist, acc, execs, bad, engine)
+            (st, hist, acc, execs, bad, engine)
         })
         .collect();
-    let mut hist2 = vec![0u64; NBINS];
-    let mut acc2 = 0u64;
-    for (h, a, e, b, en) in rows {
+    // weighted sums: a cell of stratum st stands for the measure width(st) / (nx * n)
+    let mut hist2 = vec![0f64; NBINS];
+    let mut p_acc = 0f64;
+    for (st, h, a, e, b, en) in rows {
+        let w = strata[st as usize].1 as f64 / (1u64 << 52) as f64 / (nx as f64 * n as f64);
         for i in 0..NBINS {
-            hist2[i] += h[i];
+            hist2[i] += w * h[i] as f64;
         }
-        acc2 += a;
+        p_acc += w * a as f64;
         res.executions += e;
         if b.is_some() && res.out_of_range.is_none() {
             res.out_of_range = b;
@@ -172,27 +213,29 @@ fn run_lambda(name: &str, lambda: f64, n1_log2: u32, n: usize) -> LambdaResult {
             res.engine = en;
         }
     }
-    let total2 = (n * n) as f64;
-    let p_acc = acc2 as f64 / total2;
     res.p_loop = p_loop;
     res.p_accept = p_acc;
-    res.tol = (1.0 / n as f64) * (0.2 / p_acc.max(1e-9)).max(1.0) + 1e-5;
-    if p_loop > 0. && acc2 == 0 {
-        res.out_of_range = Some(format!("lambda {}: the rejection loop never accepts on the {}x{} grid (sampler would not terminate)", lambda, n, n));
+    res.strata = nstrata;
+    // discretisation: the boundary of the accepted region and the bin edges cut O(nx + n) of the nx*n cells of a stratum;
+    // measured against the accepted mass that is O(1/(n * P(accept | stratum))) - the strata keep P(accept | stratum) of the
+    // strata that matter away from 0.  The constant is calibrated on the observed errors (see per_lambda in the evidence).
+    res.tol = if nstrata == 1 { 2.0 / n as f64 } else { 1.0 / nx as f64 } + 1e-5;
+    if p_loop > 0. && p_acc == 0. {
+        res.out_of_range = Some(format!("lambda {}: the rejection loop never accepts on the grid (sampler would not terminate)", lambda));
         return res;
     }
-    // ---- solve the chain: P(out <= t) = P1(<= t) + P(loop) * P2(<= t) / P2(accept)
+    // ---- solve the chain: P(out <= t) = P1(<= t) + P(loop) * P2(<= t) / P2(accept), t over the 64 quantiles of the target
     let mut c1 = 0u64;
-    let mut c2 = 0u64;
+    let mut c2 = 0f64;
     for j in 0..NBINS {
         c1 += hist1[j];
         c2 += hist2[j];
-        let t = (j + 1) as f64 / NBINS as f64;
-        let f = c1 as f64 / n1 as f64 + if acc2 > 0 { p_loop * (c2 as f64 / total2) / p_acc } else { 0. };
-        let err = (f - target_cdf(lambda, t)).abs();
+        let f = c1 as f64 / n1 as f64 + if p_acc > 0. { p_loop * c2 / p_acc } else { 0. };
+        let q = (j + 1) as f64 / NBINS as f64;
+        let err = (f - q).abs();
         if err > res.max_err {
             res.max_err = err;
-            res.worst_t = t;
+            res.worst_t = q;
         }
     }
     res
@@ -265,26 +308,32 @@ fn extremes(lambda: f64, len: usize) -> (u64, Option<String>) {
 
 fn check_lambda(ctx: &Ctx, name: &str, lambda: f64, n1_log2: u32, n: usize, details: &mut Vec<Value>, execs: &mut u64, distinct: &mut u64) -> Result<(), i32> {
     let r = run_lambda(name, lambda, n1_log2, n);
-    if let Some(e) = &r.engine {
-        println!("ENGINE-ERROR C16 {}", e);
-        return Err(2);
-    }
-    *execs += r.executions;
-    *distinct += r.distinct_outputs_stage1;
     let (nx, xbad) = extremes(lambda, 5);
     *execs += nx;
     let (nb, bbad) = first_try_boundary(lambda);
     *execs += nb;
     let xbad = xbad.or(bbad);
+    if let Some(e) = &r.engine {
+        // a sampler the chain cannot describe: range violations found by the structure-free scripts are still verdicts
+        let case = json!({"kind": "lambda", "name": name, "lambda": lambda, "n1_log2": n1_log2, "n": n});
+        if let Some(w) = r.out_of_range.clone().or(xbad.clone()) {
+            ctx.violation(&format!("range:lambda={}", name), &w, case);
+            return Ok(());
+        }
+        println!("ENGINE-ERROR C16 {}", e);
+        return Err(2);
+    }
+    *execs += r.executions;
+    *distinct += r.distinct_outputs_stage1;
     println!(
-        "C16 lambda={} ({:.6e}) P(loop)={:.6} P(accept|loop)={:.6} max|CDF-target|={:.3e} at t={:.4} tol={:.3e} execs={}",
+        "C16 lambda={} ({:.6e}) P(loop)={:.6} P(accept|loop)={:.6} max|CDF-target|={:.3e} at quantile {:.4} tol={:.3e} execs={}",
         name, lambda, r.p_loop, r.p_accept, r.max_err, r.worst_t, r.tol, r.executions
     );
     if name == "ln(2/1)" || name == "10" {
         ctx.sample(json!({"lambda": name, "first_try_grid_points": 1u64 << n1_log2, "loop_grid": format!("{0}x{0}", n), "P_loop": r.p_loop, "P_accept_per_round": r.p_accept, "max_cdf_error": r.max_err, "tolerance": r.tol}));
     }
     details.push(json!({"lambda": name, "value": lambda, "p_loop": r.p_loop, "p_accept_per_round": r.p_accept, "max_cdf_error": r.max_err,
-        "at_t": r.worst_t, "tolerance": r.tol, "executions": r.executions, "extreme_word_scripts": nx}));
+        "at_quantile": r.worst_t, "tolerance": r.tol, "executions": r.executions, "extreme_word_scripts": nx}));
     let case = json!({"kind": "lambda", "name": name, "lambda": lambda, "n1_log2": n1_log2, "n": n});
     if let Some(w) = r.out_of_range {
         ctx.violation(&format!("range:lambda={}", name), &w, case.clone());
@@ -296,7 +345,7 @@ fn check_lambda(ctx: &Ctx, name: &str, lambda: f64, n1_log2: u32, n: usize, deta
         ctx.violation(
             &format!("law:lambda={}", name),
             &format!(
-                "lambda={}: distribution function of the real sampler differs from (1-exp(-lambda t))/(1-exp(-lambda)) by {:.3e} at t={:.4} (tolerance {:.3e}; P(loop)={:.5}, P(accept)={:.5})",
+                "lambda={}: distribution function of the real sampler differs from (1-exp(-lambda t))/(1-exp(-lambda)) by {:.3e} at its quantile {:.4} (tolerance {:.3e}; P(loop)={:.5}, P(accept)={:.5})",
                 name, r.max_err, r.worst_t, r.tol, r.p_loop, r.p_accept
             ),
             case,
@@ -332,10 +381,10 @@ pub fn run(ctx: &Ctx) -> i32 {
         "exhaustive": true,
         "evaluations": execs,
         "distinct_nontrivial": distinct,
-        "rule": "every script over the grid is run on the real sampler: u1 on a 2^20 (thorough 2^22) midpoint grid, (u2,u3) on an NxN midpoint grid behind the loop-forcing first word, plus all 8^5 scripts over extreme words and the 81 generator values around the accept/loop boundary 1/c1; the 3-state chain first-try/loop/output is solved exactly, P(out<=t)=P1(<=t)+P(loop)*P2(<=t)/P2(accept) on 64 bin edges; distinct = distinct first-try outputs",
+        "rule": "every script over the grid is run on the real sampler: u1 on a 2^20 (thorough 2^22) midpoint grid; (u2,u3) behind the loop-forcing first word, u3 on N midpoints and u2 on N midpoints of [0,1) for lambda<=1, else on N/4 midpoints of each of 2L geometric strata [0,2^-L),[2^-L,2^-(L-1)),..,[1/4,1/2) and their mirror images towards 1 (L=ceil(log2 lambda)+3; the loop reflects points, so both ends matter), each stratum weighted by its width; plus all 8^5 scripts over extreme words and the 81 generator values around the accept/loop boundary 1/c1; the 3-state chain first-try/loop/output is solved exactly, P(out<=t)=P1(<=t)+P(loop)*P2(<=t)/P2(accept), compared at the 64 quantiles of the target law (bins are quantile intervals, so every rate is resolved alike); distinct = distinct first-try outputs",
         "grid_n": n,
         "first_try_grid_log2": n1_log2,
-        "cdf_tolerance": "max(1, 0.2/P(accept))/N + 1e-5 (midpoint rule on regions bounded by monotone curves, amplified by the loop normalisation); see max_cdf_error per lambda for what was observed",
+        "cdf_tolerance": "2/N + 1e-5 (one stratum) or 4/N + 1e-5 (strata of N/4 points): midpoint rule on regions bounded by monotone curves; the largest error observed on the unchanged tree is about 1/5 of it for every rate from 1e-300 to 1e9 (see max_cdf_error per lambda)",
         "per_lambda": details,
     });
     ctx.finish(
@@ -343,8 +392,8 @@ pub fn run(ctx: &Ctx) -> i32 {
         coverage,
         vec![
             "rand 0.9 Uniform<f64> word->value map (self-checked)".into(),
-            "discretisation: the law is decided up to the stated tolerance max(1,0.2/P(accept))/N+1e-5, not exactly".into(),
-            "lambda values outside the listed ones (1e-9..50, all ProbMinHash rates ln(m/(m-1)) for m<=33 / 256 and selected larger m) are not explored".into(),
+            "discretisation: the law is decided up to the stated tolerance (about 1e-3 quick, 2.5e-4 thorough) at 64 quantiles, not exactly".into(),
+            "lambda values outside the listed ones (1e-300..1e9: a ladder of 40 rates, all ProbMinHash rates ln(m/(m-1)) for m<=33 / 256 and selected larger m) are not explored".into(),
         ],
     )
 }
@@ -355,10 +404,13 @@ pub fn replay(_ctx: &Ctx, case: &Value) -> Result<(bool, String), String> {
     let n = case["n"].as_u64().ok_or("n")? as usize;
     let n1 = case["n1_log2"].as_u64().ok_or("n1")? as u32;
     let r = run_lambda(name, lambda, n1, n);
+    let (_, xbad) = extremes(lambda, 5);
     if let Some(e) = r.engine {
+        if r.out_of_range.is_some() || xbad.is_some() {
+            return Ok((true, format!("lambda={} out_of_range={:?} extreme={:?}", name, r.out_of_range, xbad)));
+        }
         return Err(e);
     }
-    let (_, xbad) = extremes(lambda, 5);
     let viol = r.out_of_range.is_some() || xbad.is_some() || r.max_err > r.tol;
     Ok((viol, format!("lambda={} max_cdf_error={:.6e} tol={:.3e} out_of_range={:?} extreme={:?}", name, r.max_err, r.tol, r.out_of_range, xbad)))
 }
